@@ -163,6 +163,26 @@ theorem tarzip_hostile_refused (dir name : Bytes) (h : isAbs name = true ∨ esc
   · simp [hl] at this
   · simp [hl]
 
+/-- **`writeFirstFileAs` writes the named file only**: whatever entry names the daemon
+    sends, the only path whose state changes is the destination file itself. -/
+theorem firstfile_writes_only_dest (fs : FS) (dest : Bytes) (es : List TEntry) (fs' : FS)
+    (h : firstFileAs fs dest es = .ok fs') :
+    ∀ q, stat fs' q ≠ stat fs q → q = (clean dest).segs := by
+  induction es with
+  | nil => simp [firstFileAs] at h
+  | cons e rest ih =>
+    unfold firstFileAs at h
+    by_cases hk : e.kind = .reg
+    · simp only [hk, if_true] at h
+      cases hc : createKeep fs (clean dest).segs e.perm e.content with
+      | none => simp [hc] at h
+      | some fs1 =>
+        simp only [hc, FFRes.ok.injEq] at h
+        subst h
+        exact createKeep_chg _ _ _ _ _ hc
+    · simp only [hk, if_false] at h
+      exact ih h
+
 /-- **Round trip**: extracting (with `clear`) the archive `ZipDir` writes for a tree
     reproduces the tree below the destination: same relative paths, in the same
     order, same contents, same permission bits (umask 0).  `treeOK t` says that `t`
@@ -260,6 +280,9 @@ example : unzipDir true (b "/w/dest") false
     ([([b "w"], .dir 0o755), ([b "w", b "sib.txt"], .file 0o644 (b "mine")), ([b "w", b "dest"], .dir 0o700),
       ([b "w", b "dest", b "ok"], .dir 0o700), ([b "w", b "dest", b "ok", b "f"], .file 0o600 (b "1"))],
      some (1, .refused)) := by decide
+/-- a daemon that names its only entry `../escaped.txt`: the content still goes to the destination file -/
+example : firstFileAs [([b "w"], .dir 0o755)] (b "/w/out.txt") [⟨b "d", .dir, 0o755, []⟩, ⟨b "../escaped.txt", .reg, 0o600, b "x"⟩] =
+    .ok [([b "w"], .dir 0o755), ([b "w", b "out.txt"], .file 0o600 (b "x"))] := by decide
 /-- a listing that is not in walk order (child before its directory) is not `treeOK` -/
 example : treeOK [([], .dir 0o755), ([b "d", b "f"], .file 0o644 []), ([b "d"], .dir 0o755)] = false := by decide
 
